@@ -180,7 +180,9 @@ func vhP2PKSound(maxN, maxPub, maxRef, maxS int) {
 		wb, _ := json.Marshal(P2PKWitness{Signatures: vhTexts(sigs)})
 		witness = string(wb)
 	} else {
-		witness = v.Str("witness.garbage")
+		witness = v.Str("witness.garbage") // text that is not a JSON witness
+		var probe P2PKWitness
+		v.Assume(json.Unmarshal([]byte(witness), &probe) != nil)
 		sigs = nil
 	}
 	err := VerifyP2PKLockedProof(cashu.Proof{Secret: proofSecret, Witness: witness}, secret)
